@@ -131,7 +131,9 @@ func check(c Case) error {
 			if frev.W[cd] != got {
 				return vk.Errf("%s is not symmetric: %s has weight %d, with the tables swapped %d", what, cd, got, frev.W[cd])
 			}
-			nearCut := abs(s1-cw) <= 1 || abs(s2-cw) <= 1
+			// a share within 1 of the cut-off weight may fall on either side (rounding on the 10000 scale);
+			// with a cut-off of exactly 0 nothing can be below it, so nothing may be zeroed
+			nearCut := cut != 0 && (abs(s1-cw) <= 1 || abs(s2-cw) <= 1)
 			below := s1 < cw || s2 < cw
 			okZero := got == 0 && (below || nearCut || avg <= 1)
 			okAvg := abs(got-avg) <= 1 && (!below || nearCut)
@@ -246,8 +248,7 @@ var sub = vk.Register(&vk.Sub[Case]{Name: "combine", Gen: gen, Check: check, Non
 func gen(t *rapid.T) Case {
 	c := Case{}
 	c.TA = ctab.DrawSpec(t, "a", true, vk.Pick(3000, 30000))
-	c.TB = ctab.DrawSpec(t, "b", true, vk.Pick(3000, 30000))
-	c.TB.ID = c.TA.ID // same genetic code
+	c.TB = ctab.DrawSpecFor(t, "b", true, vk.Pick(3000, 30000), c.TA.ID) // same genetic code
 	// cut-offs: fixed landmarks, random ones, and values at / next to realised shares
 	land := []float64{-1, -1e-9, 0, 1e-9, 0.05, 0.1, 0.25, 0.5, 1 - 1e-9, 1, 1 + 1e-9, 2}
 	n := rapid.IntRange(3, 6).Draw(t, "n_cuts")
